@@ -8,7 +8,7 @@ import re
 from ..cfg import Node, walk_no_nested
 from ..constfold import Folder, RegexConst, Unknown
 from ..dataflow import bind_call, chain_key, fmt_origin, origins
-from ..decide import Decider, LoopFacts, role_of
+from ..decide import Decider, LoopFacts, role_of, roots_of
 from ..loader import AnalysisError, ConstInfo, FuncInfo
 from ..regexlang import Regex, included
 from ..report import Ctx
@@ -179,19 +179,36 @@ def check_segment_predicates(ctx: Ctx) -> None:
     w = factory_closure(prog, fac)
     flow = prog.flow(w)
     # the test that starts a new segment: controls the append of the joined current segment inside the line loop
+    def boundary_or(e: ast.AST, at: Node, depth: int = 0) -> tuple[list[ast.AST], Node] | None:
+        """The disjunction that decides "a new segment starts here": the test itself, a conjunct of it, or the temporary it names."""
+        if isinstance(e, ast.BoolOp) and isinstance(e.op, ast.Or) and len(e.values) >= 2:
+            return list(e.values), at
+        if isinstance(e, ast.BoolOp) and isinstance(e.op, ast.And):
+            for v in e.values:
+                r = boundary_or(v, at, depth)
+                if r is not None:
+                    return r
+        if isinstance(e, ast.Name) and depth < 3:
+            defs = flow.reaching(at, e.id)
+            if len(defs) == 1 and defs[0].kind == "assign" and defs[0].value is not None:
+                return boundary_or(defs[0].value, defs[0].node, depth + 1)
+        return None
+
     seg_tests = []
     for n in flow.cfg.nodes:
-        if n.kind == "test" and isinstance(n.ast, ast.BoolOp) and isinstance(n.ast.op, ast.Or) and len(n.ast.values) >= 2:
+        if n.kind == "test" and any(n in flow.loop_body_nodes(h) for h in flow.cfg.nodes if h.kind == "for"):
+            bo = boundary_or(n.ast, n)
+            if bo is None:
+                continue
             controlled = [x for x in flow.cfg.nodes if any(b is n and lab == "T" for b, lab in all_guards(prog, w, x))]
-            if any(any(isinstance(c.func, ast.Attribute) and c.func.attr == "append" for c in flow.calls_in(x)) for x in controlled) and \
-                    any(n in flow.loop_body_nodes(h) for h in flow.cfg.nodes if h.kind == "for"):
-                seg_tests.append(n)
+            if any(any(isinstance(c.func, ast.Attribute) and c.func.attr == "append" for c in flow.calls_in(x)) for x in controlled):
+                seg_tests.append((n, bo))
     ctx.require("R-LAYOUT-Y3", "segment-boundary test in the tag newline handler", len(seg_tests), 1)
     tag_preds = _tag_predicates(ctx)
     ctx.note("tag_adjacency_predicates", sorted(tag_preds))
-    for t in seg_tests[:1]:
-        for d in t.ast.values:
-            sl = prog.slice(w, d, t)
+    for t, (disjuncts, at) in seg_tests[:1]:
+        for d in disjuncts:
+            sl = prog.slice(w, d, at)
             callees = sl.callees()
             is_tag = any(c in tag_preds for c in callees)
             is_block = any("block_content" in c or "block_heuristics" in c for c in callees)
@@ -421,48 +438,64 @@ def check_frontmatter_flow(ctx: Ctx) -> None:
                 cvar = d.var
     if fvar is None or cvar is None:
         raise AnalysisError("fill_markdown no longer unpacks split_frontmatter into (frontmatter, content)")
-    uses = []
-    for n in flow.cfg.nodes:
-        for ex in flow.node_exprs(n):
-            for sub in walk_no_nested(ex):
-                if isinstance(sub, ast.Name) and sub.id == fvar and isinstance(sub.ctx, ast.Load):
-                    uses.append((n, sub))
-    tests = [(n, s) for n, s in uses if n.kind == "test" and norm(n.ast) == fvar]
-    concat = [(n, s) for n, s in uses if n.kind == "stmt" and isinstance(n.ast, ast.Assign) and isinstance(n.ast.value, ast.BinOp)
-              and isinstance(n.ast.value.op, ast.Add) and isinstance(n.ast.value.left, ast.Name) and n.ast.value.left.id == fvar]
-    other = [(n, s) for n, s in uses if (n, s) not in tests and (n, s) not in concat]
-    ctx.ob("R-FRONTMATTER", f"{fm.qual} :: frontmatter used only in presence tests and the final concatenation", not other and len(concat) == 1,
-           f"every other use could re-wrap, re-quote or normalise the block; uses: {[x.text()[:50] for x, _ in uses]}", where(fm, other[0][0] if other else fm.node))
-    for n, s in concat:
-        rets = flow.cfg.returns()
-        ok = all(flow.cfg.path_avoiding(n, r, set()) is not None for r in rets)
-        tgt = n.ast.targets[0].id if isinstance(n.ast.targets[0], ast.Name) else None
-        ret_ok = all(isinstance(r.ast.value, ast.Name) and r.ast.value.id == tgt for r in rets)
-        right = n.ast.value.right
-        rorg = origins(prog, fm, right, n)
-        ctx.ob("R-FRONTMATTER", f"{fm.qual} :: result = frontmatter + rendered body", ok and ret_ok and all(o[0] == "call" and o[1].endswith(".render") for o in rorg),
-               "the returned text must be exactly the frontmatter followed by the renderer's output; right operand is "
-               + ", ".join(fmt_origin(o) for o in rorg), where(fm, n))
-    # when frontmatter is present the parser input derives from `content` only (never from the whole text)
-    sel = [n for n in flow.cfg.nodes if n.kind == "stmt" and isinstance(n.ast, ast.Assign) and isinstance(n.ast.value, ast.Name) and n.ast.value.id == cvar]
-    ok = False
-    for n in sel:
-        gs = direct_guards(prog, fm, n)
-        if len(gs) == 1 and gs[0][1] == "T" and norm(gs[0][0].ast) == fvar:
-            ok = True
-    ctx.ob("R-FRONTMATTER", f"{fm.qual} :: body = content when frontmatter is present", ok,
-           "with frontmatter the text that is formatted must be the content half only", where(fm, fm.node))
-    # body independence: no statement other than the tests / concat depends on the frontmatter value
-    dep = []
-    for n in flow.cfg.nodes:
-        if n.kind != "stmt" or isinstance(n.ast, ast.Return):
-            continue  # the return hands out the concatenation checked above
-        for ex in flow.node_exprs(n):
-            sl = prog.slice(fm, ex, n)  # data dependence only
-            if any(d.var == fvar for d in sl.defs) and n not in [x for x, _ in concat]:
-                dep.append(n)
-    ctx.ob("R-FRONTMATTER", f"{fm.qual} :: body does not depend on the frontmatter text", not dep,
-           f"statements whose value derives from the frontmatter: {[x.text()[:50] for x in dep]}", where(fm, dep[0] if dep else fm.node))
+    # The function is evaluated twice, assuming the frontmatter to be present / absent (a presence test may be spelled
+    # `if frontmatter`, `bool(frontmatter)`, a named temporary ...). F, C and TEXT stand for the two halves and the input.
+    def mk(present: bool) -> Decider:
+        def atom(leaf: ast.AST, aliases: frozenset) -> bool | None:
+            if "F" in role_of(leaf, aliases):
+                return present
+            if isinstance(leaf, ast.Call) and isinstance(leaf.func, ast.Name) and leaf.func.id == "bool" and len(leaf.args) == 1 \
+                    and "F" in role_of(leaf.args[0], aliases):
+                return present
+            if isinstance(leaf, ast.Compare) and len(leaf.ops) == 1 and "F" in role_of(leaf.left, aliases) \
+                    and isinstance(leaf.comparators[0], ast.Constant) and leaf.comparators[0].value == "":
+                if isinstance(leaf.ops[0], ast.NotEq):
+                    return present
+                if isinstance(leaf.ops[0], ast.Eq):
+                    return not present
+            return None
+
+        def value_leaf(cur: FuncInfo, e: ast.AST, aliases: frozenset):
+            roles = role_of(e, aliases)
+            for r in ("F", "C", "TEXT"):
+                if r in roles:
+                    return r
+            if isinstance(e, ast.Call) and isinstance(e.func, ast.Attribute) and e.func.attr == "render":
+                return "RENDER"
+            return None
+
+        return Decider(prog, atom, value_leaf=value_leaf, derive=True, opaque={sfq})
+
+    al = frozenset({f"F={fvar}", f"C={cvar}", f"TEXT={fm.params[0]}"})
+    parse_nodes = [(n, c) for n, c in flow.all_calls() if isinstance(c.func, ast.Attribute) and c.func.attr == "parse" and c.args]
+    ctx.require("R-FRONTMATTER", "parser call in fill_markdown", len(parse_nodes), 1)
+    results: dict[bool, frozenset] = {}
+    parsed: dict[bool, set] = {}
+    for present in (True, False):
+        dec = mk(present)
+        results[present] = dec.func_outcomes(fm, al)
+        roots: set = set()
+        for pn, pc in parse_nodes:
+            for end, env, benv, _outs in dec.walk(fm, flow.cfg.entry, lambda x, pn=pn: x is pn, al):
+                if end is pn:
+                    for v in dec.ev(fm, pc.args[0], env, benv, env.get("__aliases__", al), 0):
+                        roots |= {str(r) for r in roots_of(v)} or {"?"}
+        parsed[present] = roots
+    ctx.note("frontmatter_flow", {"returned_when_present": sorted(map(str, results[True])), "returned_when_absent": sorted(map(str, results[False])),
+                                  "parser_input_when_present": sorted(parsed[True]), "parser_input_when_absent": sorted(parsed[False])})
+    ctx.ob("R-FRONTMATTER", f"{fm.qual} :: frontmatter used only in presence tests and the final concatenation",
+           results[True] == frozenset({("cat", "F", "RENDER")}) and "F" not in parsed[True] | parsed[False],
+           "every other use could re-wrap, re-quote or normalise the block; with frontmatter present the function returns "
+           f"{sorted(map(str, results[True]))} and the parser input is computed from {sorted(parsed[True])}", where(fm, fm.node))
+    ctx.ob("R-FRONTMATTER", f"{fm.qual} :: result = frontmatter + rendered body",
+           results[True] == frozenset({("cat", "F", "RENDER")}) and results[False] == frozenset({"RENDER"}),
+           "the returned text must be exactly the frontmatter followed by the renderer's output (and the renderer's output alone when there is none); "
+           f"present: {sorted(map(str, results[True]))}, absent: {sorted(map(str, results[False]))}", where(fm, fm.node))
+    ctx.ob("R-FRONTMATTER", f"{fm.qual} :: body = content when frontmatter is present", parsed[True] == {"C"},
+           f"with frontmatter the text that is formatted must be the content half only; the parser input is computed from {sorted(parsed[True])}",
+           where(fm, fm.node))
+    ctx.ob("R-FRONTMATTER", f"{fm.qual} :: body does not depend on the frontmatter text", "F" not in parsed[True] | parsed[False],
+           f"the parser input must not be computed from the frontmatter text; it is computed from {sorted(parsed[True] | parsed[False])}", where(fm, fm.node))
 
 
 def check_split_frontmatter(ctx: Ctx) -> None:
